@@ -640,6 +640,16 @@ func (x *Exec) execInstr(fr *Frame, st *State, ins ssa.Instruction) {
 	case *ssa.Next:
 		nv := x.freshVal(i.Type(), "next")
 		fr.vals[i] = nv
+		if tt, ok := i.Type().(*types.Tuple); ok {
+			off := 0
+			for k := 0; k < tt.Len(); k++ {
+				n := x.nleaves(tt.At(k).Type())
+				if off+n <= len(nv.L) {
+					x.assumeWF(st, tt.At(k).Type(), nv.L[off:off+n])
+				}
+				off += n
+			}
+		}
 		// an iteration over a map yields an element only if the map has one
 		if rg, ok := i.Iter.(*ssa.Range); ok && !i.IsString {
 			if _, isMap := rg.X.Type().Underlying().(*types.Map); isMap && len(nv.L) > 0 && nv.L[0].Sort.Kind == SBool {
